@@ -450,3 +450,231 @@ package edwards25519
 // and sqrt(-1) is a non-square (M6), so u/w is not a square.
 //@   ensuresbody [reject] (len(x) == 32 && !isnil(result1) && !cong(lv(vv), 0, P)) ==> (!cong(lv(u), 0, P) && cong(lv(vv) * lv(xx) * lv(xx), lv(sqrtM1) * lv(u), P))
 //@   ensuresbody [reject-w] (len(x) == 32 && !isnil(result1)) ==> cong(lv(vv), lv(d) * lv(y) * lv(y) + 1, P) && cong(lv(u), lv(y) * lv(y) - 1, P)
+
+// ---------------------------------------------------------------- scalar field (fiat-crypto Montgomery code), tier L
+//@ const L = 2^252 + 27742317777372353535851937790883648493
+//@ const R = 2^256
+//@ define ev4(w) = w[0] + w[1]*2^64 + w[2]*2^128 + w[3]*2^192
+
+//@ func fiatScalarCmovznzU64(out1, arg1, arg2, arg3)
+//@   mode bv
+//@   requires [bit] arg1 == 0 || arg1 == 1
+//@   assigns *out1
+//@   ensures [zero] arg1 == 0 ==> *out1 == arg2
+//@   ensures [one] arg1 == 1 ==> *out1 == arg3
+
+//@ func fiatScalarAdd(out1, arg1, arg2)
+//@   mode lia
+//@   requires [reduced] ev4(arg1) < L && ev4(arg2) < L
+//@   assigns *out1
+//@   ensures [reduced] ev4(out1) < L
+//@   ensures [value] ev4(out1) == (ev4(arg1) + ev4(arg2)) % L
+
+//@ func fiatScalarSub(out1, arg1, arg2)
+//@   mode lia
+//@   requires [reduced] ev4(arg1) < L && ev4(arg2) < L
+//@   assigns *out1
+//@   ensures [reduced] ev4(out1) < L
+//@   ensures [value] ev4(out1) == (ev4(arg1) - ev4(arg2)) % L
+//@   ensures [zero] ev4(out1) == 0 <==> ev4(arg1) == ev4(arg2)
+
+//@ func fiatScalarOpp(out1, arg1)
+//@   mode lia
+//@   requires [reduced] ev4(arg1) < L
+//@   assigns *out1
+//@   ensures [reduced] ev4(out1) < L
+//@   ensures [value] ev4(out1) == (0 - ev4(arg1)) % L
+
+//@ func fiatScalarNonzero(out1, arg1)
+//@   mode bv
+//@   assigns *out1
+//@   ensures [iff] *out1 == 0 <==> ev4(arg1) == 0
+
+// Montgomery multiplication: the value T before the final conditional subtraction satisfies the exact equation
+// T*R = a*b + q*L with the ghost quotient q assembled from the four reduction multipliers (locals x20, x66, x113, x160).
+//@ func fiatScalarMul(out1, arg1, arg2)
+//@   mode lia
+//@   opt chainposts
+//@   requires [reduced] ev4(arg1) < L && ev4(arg2) < L
+//@   lemma [product] ev4(arg1) * ev4(arg2) <= (L - 1) * (L - 1)
+//@   assigns *out1
+//@   ensuresbody [montgomery] (x173 + x175*2^64 + x177*2^128 + x179*2^192 + x181*2^256) * R == ev4(arg1) * ev4(arg2) + (x20 + x66*2^64 + x113*2^128 + x160*2^192) * L
+//@   ensures [reduced] ev4(out1) < L
+//@   ensures [value] congw(ev4(out1) * R, ev4(arg1) * ev4(arg2), L, (x20 + x66*2^64 + x113*2^128 + x160*2^192) - (1 - x191) * R)
+//@   ensures [rinv] congw(ev4(out1), ev4(arg1) * ev4(arg2) * RINV, L, ((x20 + x66*2^64 + x113*2^128 + x160*2^192) - (1 - x191) * R) * RINV - ev4(out1) * C1)
+
+//@ const RR = R * R % L
+//@ const RINV = 4458503529701987551646482192314240623644693141688353256590997718326214331684
+//@ const C1 = (R * RINV - 1) / L
+//@ const C2 = (RR * RINV - R) / L
+
+//@ func fiatScalarFromMontgomery(out1, arg1)
+//@   mode lia
+//@   opt chainposts
+//@   requires [reduced] ev4(arg1) < L
+//@   assigns *out1
+//@   ensuresbody [montgomery] (x78 + x80*2^64 + x82*2^128 + x84*2^192) * R == ev4(arg1) + (x2 + x18*2^64 + x42*2^128 + x66*2^192) * L
+//@   ensures [reduced] ev4(out1) < L
+//@   ensures [value] congw(ev4(out1) * R, ev4(arg1), L, (x2 + x18*2^64 + x42*2^128 + x66*2^192) - (1 - x94) * R)
+//@   ensures [rinv] congw(ev4(out1), ev4(arg1) * RINV, L, ((x2 + x18*2^64 + x42*2^128 + x66*2^192) - (1 - x94) * R) * RINV - ev4(out1) * C1)
+
+//@ func fiatScalarToMontgomery(out1, arg1)
+//@   mode lia
+//@   opt chainposts
+//@   requires [reduced] ev4(arg1) < L
+//@   assigns *out1
+//@   ensuresbody [montgomery] (x151 + x153*2^64 + x155*2^128 + x157*2^192) * R == ev4(arg1) * RR + (x19 + x59*2^64 + x99*2^128 + x139*2^192) * L
+//@   ensures [reduced] ev4(out1) < L
+//@   ensures [value] congw(ev4(out1) * R, ev4(arg1) * RR, L, (x19 + x59*2^64 + x99*2^128 + x139*2^192) - (1 - x167) * R)
+//@   ensures [mont] congw(ev4(out1), ev4(arg1) * R, L, ev4(arg1) * C2 + ((x19 + x59*2^64 + x99*2^128 + x139*2^192) - (1 - x167) * R) * RINV - ev4(out1) * C1)
+
+//@ func fiatScalarToBytes(out1, arg1)
+//@   mode bv
+//@   assigns *out1
+//@   ensures [value] le(out1, 32) == ev4(arg1)
+
+//@ func fiatScalarFromBytes(out1, arg1)
+//@   mode bv
+//@   assigns *out1
+//@   ensures [value] ev4(out1) == le(arg1, 32)
+
+
+// ---------------------------------------------------------------- Scalar (property C07, C08)
+// A Scalar s holds ev4(s.s) = n*R mod L for the integer n in [0,L) it stands for (Montgomery form, R = 2^256,
+// R*RINV = 1 mod L is a ground fact).  All statements below are congruences mod L with the R factors explicit:
+//   Add:      ev4(s) = ev4(x) + ev4(y)            <=>  n_s = n_x + n_y
+//   Multiply: ev4(s) = ev4(x)*ev4(y)*RINV         <=>  n_s = n_x * n_y
+//   Bytes:    le(out) = ev4(s)*RINV mod L, < L     <=>  le(out) = n_s
+//@ define sinv(s) = ev4(s.s) < L
+//@ globalinv [rinv] R * RINV % L == 1
+//@ globalinv [two168] scalarTwo168.s[0] == 0x5b8ab432eac74798 && scalarTwo168.s[1] == 0x38afddd6de59d5d7 && scalarTwo168.s[2] == 0xa2c131b399411b7c && scalarTwo168.s[3] == 0x6329a7ed9ce5a30
+//@ globalinv [two168v] 0x5b8ab432eac74798 + 0x38afddd6de59d5d7 * 2^64 + 0xa2c131b399411b7c * 2^128 + 0x6329a7ed9ce5a30 * 2^192 == 2^168 * R % L
+//@ globalinv [two336] scalarTwo336.s[0] == 0xbd3d108e2b35ecc5 && scalarTwo336.s[1] == 0x5c3a3718bdf9c90b && scalarTwo336.s[2] == 0x63aa97a331b4f2ee && scalarTwo336.s[3] == 0x3d217f5be65cb5c
+//@ globalinv [two336v] 0xbd3d108e2b35ecc5 + 0x5c3a3718bdf9c90b * 2^64 + 0x63aa97a331b4f2ee * 2^128 + 0x3d217f5be65cb5c * 2^192 == 2^336 * R % L
+//@ globalinv [minusone] forall i in 0..32: scalarMinusOneBytes[i] == ((L - 1) >> (8 * i)) % 256
+
+//@ func NewScalar()
+//@   mode lia
+//@   assigns nothing
+//@   ensures [fresh] fresh(result)
+//@   ensures [zero] ev4(result.s) == 0
+
+//@ func (*Scalar).Set(s, x)
+//@   mode lia
+//@   assigns *s
+//@   ensures [receiver] result == s
+//@   ensures [copy] s.s[0] == x.s[0] && s.s[1] == x.s[1] && s.s[2] == x.s[2] && s.s[3] == x.s[3]
+
+//@ func (*Scalar).Add(s, x, y)
+//@   mode lia
+//@   requires [reduced] sinv(x) && sinv(y)
+//@   assigns *s
+//@   ensures [receiver] result == s
+//@   ensures [reduced] sinv(s)
+//@   ensures [value] ev4(s.s) == (ev4(x.s) + ev4(y.s)) % L
+
+//@ func (*Scalar).Subtract(s, x, y)
+//@   mode lia
+//@   requires [reduced] sinv(x) && sinv(y)
+//@   assigns *s
+//@   ensures [receiver] result == s
+//@   ensures [reduced] sinv(s)
+//@   ensures [value] ev4(s.s) == (ev4(x.s) - ev4(y.s)) % L
+
+//@ func (*Scalar).Negate(s, x)
+//@   mode lia
+//@   requires [reduced] sinv(x)
+//@   assigns *s
+//@   ensures [receiver] result == s
+//@   ensures [reduced] sinv(s)
+//@   ensures [value] ev4(s.s) == (0 - ev4(x.s)) % L
+
+//@ func (*Scalar).Multiply(s, x, y)
+//@   mode lia
+//@   requires [reduced] sinv(x) && sinv(y)
+//@   assigns *s
+//@   ensures [receiver] result == s
+//@   ensures [reduced] sinv(s)
+//@   ensures [value] cong(ev4(s.s), ev4(x.s) * ev4(y.s) * RINV, L)
+
+//@ func (*Scalar).MultiplyAdd(s, x, y, z)
+//@   mode lia
+//@   requires [reduced] sinv(x) && sinv(y) && sinv(z)
+//@   assigns *s
+//@   ensures [receiver] result == s
+//@   ensures [reduced] sinv(s)
+//@   ensures [value] cong(ev4(s.s), ev4(x.s) * ev4(y.s) * RINV + ev4(z.s), L)
+
+//@ func (*Scalar).bytes(s, out)
+//@   mode lia
+//@   requires [reduced] sinv(s)
+//@   assigns *out
+//@   ensures [slice] result == sliceof(out, 0, 32)
+//@   ensures [canonical] le(out, 32) < L
+//@   ensures [value] cong(le(out, 32), ev4(s.s) * RINV, L)
+
+//@ func (*Scalar).Bytes(s)
+//@   mode lia
+//@   requires [reduced] sinv(s)
+//@   assigns nothing
+//@   ensures [fresh] fresh(result)
+//@   ensures [len] len(result) == 32
+//@   ensures [canonical] le(result, 32) < L
+//@   ensures [value] cong(le(result, 32), ev4(s.s) * RINV, L)
+
+//@ func (*Scalar).Equal(s, t)
+//@   mode bv
+//@   requires [reduced] sinv(s) && sinv(t)
+//@   assigns nothing
+//@   ensures [bit] 0 <= result && result <= 1
+//@   ensures [iff] result == 1 <==> ev4(s.s) == ev4(t.s)
+
+//@ func (*Scalar).setShortBytes(s, x)
+//@   mode lia
+//@   requires [short] len(x) < 32
+//@   entrysplit len(x) in 0..32
+//@   assigns *s
+//@   ensures [receiver] result == s
+//@   ensures [reduced] sinv(s)
+//@   ensures [value] cong(ev4(s.s), le(x, len(x)) * R, L)
+
+//@ func (*Scalar).SetUniformBytes(s, x)
+//@   mode lia
+//@   casesplit len(x) == 64
+//@   assigns *s
+//@   ensures [badlen] len(x) != 64 ==> isnil(result0) && !isnil(result1) && unchanged(*s)
+//@   ensures [ok] len(x) == 64 ==> result0 == s && isnil(result1) && sinv(s)
+//@   ensures [value] len(x) == 64 ==> cong(ev4(s.s), le(x, 64) * R, L)
+
+//@ func isReduced(s)
+//@   mode lia
+//@   assigns nothing
+//@   ensures [iff] result <==> (len(s) == 32 && le(s, 32) < L)
+
+//@ func (*Scalar).SetCanonicalBytes(s, x)
+//@   mode lia
+//@   casesplit len(x) == 32
+//@   assigns *s
+//@   ensures [accept-iff] isnil(result1) <==> (len(x) == 32 && le(x, 32) < L)
+//@   ensures [ok] isnil(result1) ==> result0 == s && sinv(s) && cong(ev4(s.s), le(x, 32) * R, L)
+//@   ensures [atomic] !isnil(result1) ==> isnil(result0) && unchanged(*s)
+
+// RFC 8032 5.1.5: clear the low three bits, clear bit 255, set bit 254
+//@ define clamp(n) = n % 2^254 - n % 8 + 2^254
+
+//@ func (*Scalar).SetBytesWithClamping(s, x)
+//@   mode lia
+//@   casesplit len(x) == 32
+//@   assigns *s
+//@   ensures [badlen] len(x) != 32 ==> isnil(result0) && !isnil(result1) && unchanged(*s)
+//@   ensures [ok] len(x) == 32 ==> result0 == s && isnil(result1) && sinv(s)
+//@   ensures [value] len(x) == 32 ==> cong(ev4(s.s), clamp(le(x, 32)) * R, L)
+
+//@ func (*Scalar).signedRadix16(s)
+//@   mode lia
+//@   requires [reduced] sinv(s)
+//@   assigns nothing
+//@   ensures [range] forall i in 0..63: -8 <= result[i] && result[i] <= 7
+//@   ensures [top] 0 <= result[63] && result[63] <= 8
+//@   ensures [canonical] (sum i in 0..64: result[i] * 16^i) < L && 0 <= (sum i in 0..64: result[i] * 16^i)
+//@   ensures [value] cong(sum i in 0..64: result[i] * 16^i, ev4(s.s) * RINV, L)
